@@ -21,27 +21,37 @@
 //! Everything outside the supported subset is rejected with an error (file:line: message) — the translator never guesses.
 //!
 //! Supported subset
-//!   items       `impl[<T, …>] X[<T, …>] { fn f([&self | &mut self,] x: Ty, y: &mut S, …) [-> Ty] { … } }` for several `X` of one file;
+//!   items       `impl[<T, …>] X[<T, …>] { fn f([&self | &mut self,] x: Ty, y: &mut S, …) [-> Ty] { … } }` for several `X` of one file
+//!               (structs, fieldless enums — there also `self` by value —, methods of trait impls), free functions (`::f`);
 //!               the generic parameters of the impl must be given Lean types (`--type T=α`); a generic parameter of the fn
-//!               must be a closure type (`F: FnOnce(A) -> B`, → a pure Lean function)
+//!               must be a closure type (`F: FnOnce(A) -> B`, → a pure Lean function) or `E: Into<T>` (→ `T`);
+//!               `-> &mut T` for a borrow of an element of a Vec of `self` (the function returns the index)
 //!   types       u8 u16 u32 u64 usize NonZeroU32 NonZeroU64 (→ Nat), bool, `Vec<T>` (→ List), `Option<T>`, tuples, `&T` (→ T),
-//!               `ManuallyDrop<T>` (→ Option T), `PhantomData<…>` (dropped), `impl Fn*(A) -> B`, `Self`,
-//!               named types given by `--type R=L` or emitted by `--struct R`; structs / unions of the file for field access
-//!               (a union-typed field is flattened into the record that contains it: every member is a field)
-//!   statements  `let x = e;` `let x;` … `x = e;` (deferred initialisation; no `mut`), `P = e;` `P += e;` `P -= e;` where `P` is
-//!               `self.f…` or `x.f…` / `*x` for a mutable borrow `x` of a Vec element, `*V.get_unchecked_mut(i) = e;`,
-//!               `V.insert(i, x);` `V.push(x);` `V.remove(i);` `V.resize(n, x);` `V.swap_remove(i);` (V a Vec field),
+//!               `ManuallyDrop<T>` (→ Option T), `PhantomData<…>` (dropped), `impl Fn*(A) -> B`, `Self`, type aliases of the file,
+//!               blocks of bits (`--bits Block=64` → `BitVec 64`), named types given by `--type R=L` or emitted by `--struct R`;
+//!               structs / unions of the file for field access (a union-typed field is flattened into the record that
+//!               contains it: every member is a field; a `--transparent` one-field struct is its field)
+//!   statements  `let x = e;` `let (a, b) = e;` `let mut x = e;` `let x;` … `x = e;` (deferred initialisation),
+//!               `P = e;` `P += e;` `P -= e;` `P |= e;` `P &= e;` `P ^= e;` where `P` is `self.f…`, a `let mut` local, or
+//!               `x.f…` / `*x` for a mutable borrow `x` of a Vec element, `*V.get_unchecked_mut(i) = e;`,
+//!               `V.insert(i, x);` `V.push(x);` `V.remove(i);` `V.resize(n, x);` `V.swap_remove(i);` `V.clear();` (V a Vec field),
+//!               `x.g(..);` for a method that changes its receiver,
 //!               `assert!`/`debug_assert!`/`assert_eq!`/`assert_ne!`/`debug_assert_eq!`/`assume_unchecked(..)` (skipped, listed),
 //!               `panic!(..)` (the function then returns an `Outcome`), `return [e];`, `unsafe { e }` (transparent, listed),
-//!               `if c {…} [else if …] [else {…}]`, `if let Some(x) = e {…} [else {…}]`, `for x in 0..n {…}`, `x.g(..);` for a method
-//!               that changes its receiver,
-//!               `match e { … }` on a fieldless enum of the same file (one arm per variant, no guard, no `_`) or on an `Option`
-//!   expressions integer / bool literals, locals, places `x.f.g`, `e as u32|usize|…` (identity), `+ - %`, `< <= > >= == !=`,
-//!               `&& || !`, `u32::MAX`, `V.len()`, `V.get(i)`, `V.get_mut(i)`, `V.get_unchecked[_mut](i)`, `V.swap_remove(i)`,
-//!               `V.iter().position(|&p| p == x)`, `Some(e)`, `None`, tuples, struct literals, `if c { a } else { b }`,
-//!               `e?`, `e.unwrap()`, `e.unwrap_unchecked()`, `e.wrapping_add(k)`, `nz.get()`, `f(x)` for a closure parameter,
-//!               `T::g(..)` / `x.g(..)` for a function translated earlier in the same run or given by `--prim` (a closure literal
-//!               `|x| e` where the callee expects a closure; `Name(e)` for a tuple struct given by `--prim ::Name(T) -> R`),
+//!               `if c {…} [else if …] [else {…}]`, `if let Some(x) = e {…} [else {…}]`,
+//!               `for x in 0..n {…}` (fold over the range), `for p in &v {…}` / `in v.iter()` (fold over the elements),
+//!               `for p in &mut v {…}` (`List.map`), `for (a, b) in v.iter_mut().zip(w.iter()) {…}` (`vecZipMut`),
+//!               `match e { … }` on an enum of the same file (fields by `--variant` templates; one arm per variant, no guard,
+//!               no `_`), on an `Option`, on a bool, on a tuple of fieldless enums
+//!   expressions integer / bool literals, locals, places `x.f.g`, `e as u32|usize|…` (identity), `+ - / %`, `< <= > >= == !=`,
+//!               `&& || !`, `& | ^ ! << >>` on blocks of bits, `u32::MAX`, `V.len()`, `V.get(i)`, `V.get_mut(i)`,
+//!               `V.get_unchecked[_mut](i)`, `V.swap_remove(i)`, `V.iter().position(|&p| p == x)`,
+//!               `V.iter()` with `chain zip cloned copied map any all sum collect` (closures over `x`, `&x`, `(a, b)`, `&(a, b)`),
+//!               `Some(e)`, `None`, `E::V(e)`, tuples, struct literals, `vec![a, b]`, `if c { a } else { b }`, `match` with value
+//!               arms, `e?`, `e.unwrap()`, `e.unwrap_unchecked()`, `o.map_or(d, f)`, `e.wrapping_add(k)`, `nz.get()`,
+//!               `b.count_ones()`, `f(x)` for a closure parameter,
+//!               `T::g(..)` / `x.g(..)` / `g(..)` for a function translated earlier in the same run or given by `--prim` (a closure
+//!               literal `|x| e` where the callee expects a closure; `Name(e)` for a tuple struct given by `--prim ::Name(T) -> R`),
 //!               `ManuallyDrop::new(e)`, `ManuallyDrop::take(&mut P)`, `mem::replace(dest, e)`, parentheses
 
 use proc_macro2::Span;
@@ -88,6 +98,8 @@ pub struct Options {
     pub structs: Vec<String>,
     /// structs with one field that are represented by that field (`ComponentAccess { cases }` is the list of cases)
     pub transparent: Vec<String>,
+    /// type names that are blocks of bits: (`Block`, 64) — `BitVec 64` with `&&& ||| ^^^ ~~~ <<< >>>`
+    pub bits: Vec<(String, u32)>,
 }
 
 #[derive(Debug)]
@@ -113,6 +125,8 @@ enum Ty {
     Fn(Vec<Ty>, Box<Ty>),
     /// `ManuallyDrop<T>`: a cell that holds a value or has been emptied
     Cell(Box<Ty>),
+    /// a block of bits (`--bits Block=64`): `BitVec w`
+    Bits(u32),
     /// an iterator over a list (`v.iter()`, and what `chain` / `map` / `cloned` make of it): the list
     Iter(Box<Ty>),
     Phantom,
@@ -125,6 +139,7 @@ impl Ty {
         match self {
             Ty::Int(..) => "Nat".into(),
             Ty::Bool => "Bool".into(),
+            Ty::Bits(w) => format!("BitVec {w}"),
             Ty::Unit | Ty::Phantom | Ty::Unknown => "Unit".into(),
             Ty::Named { lean, .. } => lean.clone(),
             Ty::Vec(t) | Ty::Iter(t) => format!("List {}", paren_ty(&t.lean())),
@@ -342,6 +357,8 @@ struct Sig {
     has_panic: bool,
     /// number of `&mut` parameters besides `self`
     mut_params: usize,
+    /// `-> &mut T`: (path of the Vec field of `self` the borrow points into, element type); the result is the index
+    ret_borrow: Option<(Vec<String>, Ty)>,
     lean: String,
     /// type-class instances the definition asks for (tyvar names)
     deceq: BTreeSet<String>,
@@ -394,6 +411,10 @@ struct Tr<'a> {
     no_hoist: usize,
     last_borrow: Option<Borrow>,
     effect_seen: bool,
+    /// integer literals are blocks of this width (inside a bitwise operation on a block)
+    bits_ctx: Option<u32>,
+    /// the current function returns `&mut T` (see `Sig::ret_borrow`)
+    ret_borrow: Option<(Vec<String>, Ty)>,
     /// (variable an effect of the current statement changes, how often the effectful call mentions it)
     effect_info: Vec<(String, usize)>,
     /// state variables of the enclosing `State` blocks (innermost last)
@@ -593,6 +614,9 @@ impl<'a> Tr<'a> {
                         }
                         if name == "PhantomData" {
                             return Ok(Ty::Phantom);
+                        }
+                        if let Some((_, w)) = self.opts.bits.iter().find(|(n, _)| *n == name) {
+                            return Ok(Ty::Bits(*w));
                         }
                         if let Some((_, f)) = self.closures.iter().find(|(n, _)| *n == name) {
                             return Ok(f.clone());
@@ -914,6 +938,7 @@ fn assignable(slot: &Ty, v: &Ty) -> bool {
     match (slot, v) {
         (_, Ty::Unknown) | (Ty::Unknown, _) => true,
         (Ty::Int(..), Ty::Int(0, _)) | (Ty::Int(0, _), Ty::Int(..)) => true,
+        (Ty::Bits(_), Ty::Int(0, _)) => true,
         (Ty::Int(a, _), Ty::Int(b, _)) => a == b,
         (Ty::Opt(_), Ty::Opt(b)) if **b == Ty::Unit => true, // `None`
         (Ty::Opt(a), Ty::Opt(b)) => assignable(a, b),
